@@ -420,6 +420,24 @@ _add('C06', 'DeeprobModel.Props.E2EClt', _E2C, ['e2e_bfs', 'e2e_message_passing_
 _add('C12', 'DeeprobModel.Props.E2EClt', _E2C, ['e2e_bfs', 'e2e_to_pc_partial', 'e2e_message_passing_marginal'], [])
 _add('C13', 'DeeprobModel.Props.E2EClt', _E2C, ['e2e_clt_roundtrip_bfs'], [])
 
+_E2 = 'Deeprob.E2E'
+for _p in ('C01', 'C02'):
+    _add(_p, 'DeeprobModel.Props.E2ECirc', _E2, ['e2e_eval_forward', 'e2e_eval_forward_sum', 'e2e_eval_forward_prod', 'e2e_eval_forward_marginal', 'e2e_eval_forward_all_missing',
+                                              'e2e_eval_forward_normalised', 'e2e_log_likelihood_log', 'e2e_log_likelihood', 'e2e_log_likelihood_linear'], [])
+_add('C19', 'DeeprobModel.Props.E2ECirc', _E2, ['e2e_moment', 'e2e_moment_abstract', 'e2e_moment_net', 'e2e_moment_table', 'e2e_moment_api', 'e2e_moment_api_zero', 'e2e_moment_variance',
+                                              'e2e_moment_skewness', 'e2e_moment_kurtosis', 'e2e_moment_categorical_leaf'], [])
+_add('C14', 'DeeprobModel.Props.E2ECirc', _E2, ['e2e_resp_entry', 'e2e_resp_posterior', 'e2e_resp', 'e2e_resp_root', 'e2e_resp_gen'], [])
+_add('C10', 'DeeprobModel.Props.E2ECirc', _E2, ['e2e_marginalize', 'e2e_marginalize_rows', 'e2e_marginalize_total', 'e2e_marginalize_shape', 'e2e_marginalize_guard', 'e2e_marginalize_rejects'], [])
+_add('C07', 'DeeprobModel.Props.E2ECirc', _E2, ['e2e_sum_sample_branch', 'e2e_sum_sample_branch_frame', 'e2e_sum_sample_branch_exact'], [])
+for _p in ('C04', 'C05'):
+    _add(_p, 'DeeprobModel.Props.E2ELearn', _E2, ['e2e_step_as_coded', 'e2e_learn_step', 'e2e_learn_terminates', 'e2e_learn_total', 'e2e_learn_final_proportions'], [])
+_add('C18', 'DeeprobModel.Props.E2ELearn', _E2, ['e2e_cnet_eval', 'e2e_cnet_normalised', 'e2e_cnet_learn_as_coded', 'e2e_cnet_learn', 'e2e_cnet_learn_eval'], [])
+_add('C11', 'DeeprobModel.Props.E2ELearn', _E2, ['e2e_cpt', 'e2e_cpt_root', 'e2e_cpt_rows_sum_one', 'e2e_cpt_pos', 'e2e_cpt_fit_normalised', 'e2e_cpt_tree_maximal'], [])
+_add('C13', 'DeeprobModel.Props.E2EMisc', _E2, ['e2e_io_decode', 'e2e_io', 'e2e_io_id', 'e2e_io_gen_stable', 'e2e_io_reload_fixed', 'e2e_io_weights_loadable', 'e2e_io_repeated_child'], [])
+_add('C20', 'DeeprobModel.Props.E2EMisc', _E2, ['e2e_predict_proba_normalised', 'e2e_predict_proba_normalised_any', 'e2e_predict_proba_entry', 'e2e_predict_argmax', 'e2e_predict_proba',
+                                              'e2e_predict_argmax_log', 'e2e_predict_is_sum_mpe'], [])
+_add('C16', 'DeeprobModel.Props.E2EMisc', _E2, ['e2e_rat_topdown_mpe', 'e2e_rat_topdown_sample', 'e2e_rat_topdown_sample_exact', 'e2e_rat_topdown'], [])
+
 # net-level prune / marginalize theorems (wave 2)
 PROPS['C09']['modules'] += ['DeeprobModel.Props.C09NetMore', 'DeeprobModel.Props.C09NetKahn']
 PROPS['C09']['theorems'] += ['Deeprob.pruneNet_normal_form', 'Deeprob.pruneNet_valid', 'Deeprob.pruneNet_checkSpn', 'Deeprob.pruneNet_fix',
